@@ -43,6 +43,8 @@ def _init_worker():
 def _call(args):
     modname, fname, case = args
     try:
+        # every case starts in /verif, whatever an earlier case (or the code under test) did to the working directory
+        os.chdir(os.path.dirname(os.path.dirname(os.path.abspath(__file__))))
         mod = importlib.import_module(modname)
         return getattr(mod, fname)(case)
     except BaseException as e:  # a harness crash is reported loudly, never swallowed
